@@ -542,6 +542,10 @@ func (u *Unit) specCall(st *State, e *SExpr, env *SpecEnv, q *bool) *Val {
 	case "trimPrefix":
 		a, b := ev(0), ev(1)
 		return &Val{T: types.Typ[types.String], S: tIte(app("str.prefixof", b.S, a.S), app("str.substr", a.S, app("str.len", b.S), app("-", app("str.len", a.S), app("str.len", b.S))), a.S)}
+	case "bytesContent": // bytesContent(b): abstract identity of a byte slice's content
+		b := ev(0)
+		f := u.d.fun("content!bytes", []string{arrSort(SInt, SInt), SInt}, SInt)
+		return intVal(app(f, b.Arr, b.Len))
 	case "joinOf": // joinOf(xs, sep): strings.Join(xs, sep)
 		return &Val{T: types.Typ[types.String], S: u.joinTerm(ev(0), ev(1).S)}
 	case "canonHeader":
